@@ -109,6 +109,10 @@ Section Record.
   (** the filter applied to [dirs[:]] *)
   Definition keep_dir (base d : str) : bool := negb (excl (normpath (join base d))).
 
+  (** exclusion of a start path: the start directory '.' itself is never excluded (a pattern such as '.*' is
+      about what lies below it) *)
+  Definition excl_start (p : str) : bool := if eqs p [46%N] then false else excl p.
+
   (** the body of [for filename in names] up to the calls of _mangle/_hash:
       the files of one yielded triple that get recorded, with their contents *)
   Fixpoint names_cands (base : str) (loc : list str) (names : list str) : res (list (str * list N)) :=
@@ -139,7 +143,7 @@ Section Record.
   Definition uri_cands (follow : bool) (cwd : list str) (uri : str) : res (str * list (str * list N)) :=
     let sp := strip_scheme_prefix uri in
     let path := normpath (fst sp) in
-    if excl path then Ok (snd sp, [])
+    if excl_start path then Ok (snd sp, [])
     else
       match stat_path root fuel cwd path with
       | RNone => Ok (snd sp, [])
